@@ -297,12 +297,11 @@ theorem conv : (t : HType) → WF t → Conv t
     cases v <;> ill_typed ht hna
     rename_i xs
     have hwf' : (fs.map Prod.fst).Nodup ∧ WFFields fs := by simpa [WF] using hwf
-    have hok' : hasSelfField fs = false ∧ JsonOKFields fs xs := by simpa [JsonOK] using hok
-    obtain ⟨kvs, h1, _, h3⟩ := convFields fs hwf'.2 hwf'.1 xs (by simpa [HasType] using ht) hok'.2
+    obtain ⟨kvs, h1, _, h3⟩ := convFields fs hwf'.2 hwf'.1 xs (by simpa [HasType] using ht) (by simpa [JsonOK] using hok)
     refine ⟨.obj kvs, by simp [toJson, h1], by simp, ?_⟩
     have := h3 [] (fun _ _ => rfl)
     simp only [List.nil_append] at this
-    simp [fromJson, this, cOrder, hok'.1]
+    simp [fromJson, this, cOrder]
   | .tuple ts, hwf => fun v hna ht hok => by
     cases v <;> ill_typed ht hna
     rename_i xs
